@@ -30,7 +30,13 @@ def engine_history(rnd, tag):
                 ops.append(('regpy', 'shared', ar, [(0, [[Sym('a'), tag + 'py']] + [[Sym('a'), 'x']] * (ar - 1))], None, 'inferred', False))
                 ops.append(('query', 'shared', ('all',), [[Sym('v'), 8], [Sym('v'), 9]]))
         elif r < 0.55:
-            ops.append(('clear',))
+            if rnd.random() < 0.5:
+                ops.append(('clear',))
+            else:
+                vs = rnd.sample(['X', 'Y', 'Z', 'W', 'A', 'B'], 2)
+                ops.append(('compilefail', rnd.choice(['rate(%s, foo/1) :- q(%s, %s).\n', 'p(%s) :- ( q(%s) -> r(%s, bar/2) ; true ).\n']).replace('%s', '{}').format(vs[0], vs[0], vs[1])))
+                ops.append(('load', 'combine', [('cf', [('V', vs[0]), ('V', vs[1])], ('call', '=', [('V', vs[0]), ('F', 'f', [('V', vs[1])])]), True)]))
+                ops.append(('query', 'cf', ('all',), [[Sym('v'), 8], [Sym('a'), tag]]))
         elif r < 0.62:
             # iterators of the Python API that are created in one step and consumed in a later one
             t = rnd.choice([[Sym('a'), tag], [Sym('i'), 7], [Sym('f'), 'f', [Sym('a'), tag]]])
